@@ -18,3 +18,15 @@ chk("C07", "model_checking",
     "synchronously in the model (harness waits for it).",
     "TLA+ spec + TLC exhaustive check; transition-coverage replay into real code; trace validation of recorded histories",
     "DESIGN.md 3 (C07)", "tlc+harness/cmd/tracker")
+
+chk("C05", "model_checking",
+    "ServerConn.tla (RFC 9051 state machine, backend gating, auth gating, capability advertisement) is model-checked for all 128 "
+    "configurations {TLS}x{InsecureAuth}x{PREAUTH}x{TLSConfig}x{MOVE,NAMESPACE,UNAUTHENTICATE}; every transition of its graph (38 commands x "
+    "well-formed/malformed x every backend outcome) and every command sequence up to depth 2 (quick) / 3 (thorough) over command families "
+    "is replayed on a real imapserver connection (real TLS where configured) with a scripted Session, comparing tagged class, BYE, continuation "
+    "requests, the exact list of backend calls, the post-state (black-box probes) and advertised capabilities after every step; long random "
+    "sequences are validated by ServerConnTrace with the gating invariants evaluated on every observed state.",
+    "Trusts TLC, the harness tokenizer and probes (CAPABILITY/FETCH/STATUS) to observe the state; only OK vs not-OK of tagged responses is "
+    "compared (the property does not fix NO vs BAD); SessionSASL backends are not modelled (PLAIN via Login only).",
+    "TLA+ spec + TLC exhaustive check over the configuration product; transition-coverage and depth-bounded replay; trace validation",
+    "DESIGN.md 3 (C05)", "tlc+harness/cmd/serverconn")
